@@ -33,6 +33,12 @@ fn gen_case(seed: u64, case: usize, focus: &str) -> (Rng, DbCfg) {
     if focus == "rollback" || focus == "reject" {
         cfg.maxlog = *r.pick(&[1u32, 2, 3, 5]);
     }
+    if focus == "script-rollback-multi-segment" {
+        cfg.maxlog = 10;
+    }
+    if focus == "script-prune-then-rollback-all" {
+        cfg.maxlog = 3;
+    }
     (r, cfg)
 }
 
@@ -101,6 +107,7 @@ pub fn child(args: &[String]) -> i32 {
         }));
     }
     let mut e = Engine::new(r, &mut sink, cfg, dir.clone(), big);
+    e.script = crate::db::script_for(&focus);
     e.forget_dir();
     for _ in 0..nsteps {
         e.step(&weights);
@@ -318,8 +325,15 @@ pub fn run(args: &[String], out: &mut Sink) {
         {
             let mut rr = r.clone();
             let cfgc = cfg.clone();
-            nsteps = rr.range(nops / 2, nops);
+            nsteps = match crate::db::script_for(&focus) {
+                Some(sc) => {
+                    let _ = rr.range(nops / 2, nops);
+                    sc.len()
+                }
+                None => rr.range(nops / 2, nops),
+            };
             let mut e = Engine::new(rr, &mut scratch, cfgc, dir.clone(), big);
+            e.script = crate::db::script_for(&focus);
             for _ in 0..nsteps {
                 e.step(&weights);
             }
@@ -404,7 +418,7 @@ pub fn run(args: &[String], out: &mut Sink) {
                     cmd.stdout(std::process::Stdio::null()).stderr(std::process::Stdio::null());
                     let rc = run_timeout(&mut cmd, 60);
                     let desc = format!(
-                        "seed={seed} case={case} op={si}:{} event={k}/{} ({}) variant={var} cfg=[{}]",
+                        "seed={seed} case={case} nsteps={nsteps} op={si}:{} event={k}/{} ({}) variant={var} cfg=[{}]",
                         info.what,
                         info.events,
                         info.kinds.get(k as usize).cloned().unwrap_or("end".into()),
@@ -449,26 +463,73 @@ pub fn run(args: &[String], out: &mut Sink) {
                         c.stdout(std::process::Stdio::null()).stderr(std::process::Stdio::null());
                         c
                     };
-                    if mode == "nested" {
-                        // crash again at every event of the recovery, then recover for real
+                    if mode == "nested" || mode == "nested-power" {
+                        // nested-power: the second crash is a power loss (every effect of the recovery not yet covered
+                        // by a completed fsync is reverted, resp. a seeded random half of them)
+                        let nlosses: Vec<String> = if mode == "nested" { vec!["none".into()] } else { vec!["all".into(), format!("rand:{}", seed + k)] };
+                        let np = if mode == "nested" { "C03" } else { "C04" };
+                        for nloss in &nlosses {
+                        // crash again at every event of the recovery — each probe starts from a FRESH copy of the
+                        // crashed directory (an interrupted recovery changes what the next one has to do) — then
+                        // recover that copy for real: it must open and show the same state
                         let mut k2 = 0u64;
                         loop {
-                            let rc2 = run_timeout(&mut dump_cmd(Some(k2), &rep_file), 60);
+                            let dn = format!("{d}.n");
+                            let _ = std::fs::remove_dir_all(&dn);
+                            if copy_db_files(&d, &dn).is_err() {
+                                break;
+                            }
+                            let rep_n = format!("{dn}.report");
+                            let mut c = Command::new(&exe);
+                            c.arg("dump").args(["--dir", &dn, "--keys", &keys_file, "--report", &rep_n])
+                                .args(["--buckets", &cfg.buckets.to_string(), "--maxlog", &cfg.maxlog.to_string(), "--cfg-seed", &(seed + k).to_string()])
+                                .args(["--abort-at", &k2.to_string(), "--loss", nloss]);
+                            if let Some(s) = &segsize {
+                                c.args(["--segsize", s]);
+                            }
+                            c.stdout(std::process::Stdio::null()).stderr(std::process::Stdio::null());
+                            let rc_n = run_timeout(&mut c, 60);
                             out.count("nested_children");
-                            match rc2 {
-                                Some(77) => {
-                                    k2 += 1;
-                                    if k2 > 200 {
-                                        break;
+                            if rc_n != Some(77) {
+                                let _ = std::fs::remove_dir_all(&dn);
+                                cleanup(&dn);
+                                break; // recovery finished without reaching event k2
+                            }
+                            // recover the interrupted recovery
+                            let mut c2 = Command::new(&exe);
+                            c2.arg("dump").args(["--dir", &dn, "--keys", &keys_file, "--report", &rep_n])
+                                .args(["--buckets", &cfg.buckets.to_string(), "--maxlog", &cfg.maxlog.to_string(), "--cfg-seed", &(seed + k).to_string()]);
+                            if let Some(s) = &segsize {
+                                c2.args(["--segsize", s]);
+                            }
+                            c2.stdout(std::process::Stdio::null()).stderr(std::process::Stdio::null());
+                            match run_timeout(&mut c2, 60) {
+                                Some(0) => {
+                                    let rep = parse_report(&rep_n);
+                                    let ok = rep.complete && (state_matches(&rep, &info.pre.0, info.pre.1, &keyset) || state_matches(&rep, &info.post.0, info.post.1, &keyset));
+                                    if !ok {
+                                        out.fail(format!("{np} after a crash (loss={nloss}) at event {k2} of the recovery the store shows neither the state before nor after the operation: {desc}"));
                                     }
                                 }
-                                _ => break, // recovery finished without reaching event k2
+                                None => out.fail(format!("{np} reopening HANGS after a crash (loss={nloss}) at event {k2} of the recovery: {desc}")),
+                                Some(3) => {
+                                    let why = std::fs::read_to_string(&rep_n).unwrap_or_default();
+                                    out.fail(format!("{np} directory does not reopen ({}) after a crash (loss={nloss}) at event {k2} of the recovery that followed {desc}", why.trim().chars().take(160).collect::<String>()));
+                                }
+                                Some(c) => out.fail(format!("{np} reopening crashes (exit {c}) after a crash (loss={nloss}) at event {k2} of the recovery: {desc}")),
+                            }
+                            let _ = std::fs::remove_dir_all(&dn);
+                            cleanup(&dn);
+                            k2 += 1;
+                            if k2 > 200 {
+                                break;
                             }
                         }
                         out.add("nested_recovery_events", k2);
+                        }
                     }
                     let rc2 = run_timeout(&mut dump_cmd(None, &rep_file), 60);
-                    let prop = match mode.as_str() { "power" => "C04", "fault" => "C14", _ => "C03" };
+                    let prop = match mode.as_str() { "power" | "nested-power" => "C04", "fault" => "C14", _ => "C03" };
                     match rc2 {
                         None => out.fail(format!("{prop} reopening HANGS after {desc}")),
                         Some(0) => {
